@@ -161,7 +161,7 @@ theorem dedupFetch_case (cfg : Cfg) (tbl : Nat → Option ORes) (c : Cache) (now
     (range : Option Str) (rp : Bool) :
     DFCase cfg c now r rp (dedupFetch cfg tbl c now r range rp).out (dedupFetch cfg tbl c now r range rp).label
       (dedupFetch cfg tbl c now r range rp).cache (dedupFetch cfg tbl c now r range rp).log := by
-  unfold dedupFetch
+  unfold dedupFetch dedupFetchEnv
   split
   · have fc := fetchUpstream_case cfg tbl c now (upReq r range) rp
     have fl := fetchUpstream_log cfg tbl c now (upReq r range) rp
@@ -473,7 +473,7 @@ theorem fresh_get_is_hit (cfg : Cfg) (tbl : Nat → Option ORes) (c : Cache) (no
     (handle cfg tbl c now r).1.body = .stored e.o.ver 0 e.o.size ∧ (handle cfg tbl c now r).2.1 = c := by
   have hd : dfOf cfg tbl c now r =
       { out := .cached e 0, label := .hit, cache := c, log := [], rangeDropped := false } := by
-    unfold dfOf dedupFetch
+    unfold dfOf dedupFetch dedupFetchEnv
     simp [parsedOf_none hr, hm, he, hf]
   rw [handle_eq, hd]
   simp only [parsedOf_none hr, hm, Option.isSome_none, Bool.false_and, Bool.false_eq_true, if_false]
@@ -626,7 +626,7 @@ theorem storable_is_stored (cfg : Cfg) (tbl : Nat → Option ORes) (c : Cache) (
       { out := .cached (mkEntry cfg now r.res r.query o) 200, label := .miss,
         cache := mkEntry cfg now r.res r.query o :: erase c r.res r.query,
         log := [upReq r none], rangeDropped := false } := by
-    unfold dfOf dedupFetch
+    unfold dfOf dedupFetch dedupFetchEnv
     simp [parsedOf_none hr, hm, hl, hr, hfu]
   rw [handle_eq, hd]
   simp only [parsedOf_none hr, hm, Option.isSome_none, Bool.false_and, Bool.false_eq_true, if_false]
